@@ -231,4 +231,8 @@ def build(tier):
                       + " (values symbolic, layout concrete)",
                       "accelerator is None (DeepSpeed branch not taken)"]
     P.uncovered += ["DeepSpeedOptimizerWrapper branch of reinit_opt", "registries with more than two optimizers / three hyper-parameters (layouts are enumerated)"]
+    P.native.append(dict(name='mutate', adapter='c06:mutate', thorough_only=True, payload={"mode": "search"},
+                         bound='RLParameter.mutate calls (float/int, bounds, shrink/grow draws): result = dtype(clip(value x factor))'))
+    P.native.append(dict(name='rl_hp', adapter='c06:rlhp', thorough_only=True, payload={"mode": "search"},
+                         bound='DQN/DDPG/TD3 populations on one shared config: exactly one hyper-parameter changes, optimizers carry the mutated lr over current networks'))
     return P
